@@ -88,7 +88,7 @@ func c03CheckDiagnostic(src string, err error, positions bool) {
 }
 
 // HarnessC03ParserHoles: every template with one (quick) or, in the templates
-// of at most 14 bytes, two adjacent (thorough) symbolic ASCII bytes substituted or inserted at every position:
+// of at most 12 bytes, two adjacent (thorough) symbolic ASCII bytes substituted or inserted at every position:
 // parse, compile and error rendering never panic, and diagnostics point into the text.
 func HarnessC03ParserHoles() { c03ParserHoles(false) }
 
@@ -100,7 +100,7 @@ func c03ParserHoles(positions bool) {
 	t := c03Templates[verifrt.Choose(len(c03Templates))]
 	pos := verifrt.Choose(len(t) + 1)
 	hole := 1
-	if verifrt.Thorough() && len(t) <= 14 {
+	if verifrt.Thorough() && len(t) <= 12 {
 		// two adjacent symbolic bytes: only in the short templates (the path count
 		// grows with the square of the number of lexer byte classes)
 		hole = 1 + verifrt.Choose(2)
